@@ -223,3 +223,17 @@ pub open spec fn check_closure_ok(params: Seq<HirClosureParam>, body: ExprId, ex
                    None => pt@[i] == expected->TFunc_params@[i] }))
     } else { closure_rule_ok(params, body, r) }
 }
+
+// ---- blocks (U-INFERCTRL infer_block_expr(s) / check_block_expr(s)) ----
+impl Prim { #[verifier::external_body] pub fn unit() -> (r: Prim) { unimplemented!() } }
+// `v.last().map(|e| e.get_ty()).unwrap_or(Ty::TUnit)`: the last expression's type, unit for none
+#[verifier::external_body] pub fn last_ty(v: &Vec<Expr>) -> (r: Ty) ensures v@.len() > 0 ==> r == expr_ty(v@[v@.len() - 1]), v@.len() == 0 ==> r is TUnit { unimplemented!() }
+#[verifier::external_body] pub fn first_ty(v: &Vec<Expr>) -> (r: Ty) ensures v@.len() > 0 ==> r == expr_ty(v@[0]), v@.len() == 0 ==> r is TUnit { unimplemented!() }        // the same with `.first()`
+pub open spec fn unit_value(r: Expr) -> bool { r matches Expr::EPrim { value: _, ty } && ty is TUnit }
+// a non-empty block: every expression elaborated, in order; the block has the type of its LAST expression (in checking mode the last one is checked against the expected type)
+pub open spec fn block_rule_ok(exprs: Seq<ExprId>, r: Expr, expected: Option<Ty>) -> bool {
+    r matches Expr::EBlock { exprs: a, ty } && a@.len() == exprs.len() && exprs.len() > 0 && ty == expr_ty(a@[a@.len() - 1])
+    && (forall|i: int| 0 <= i < exprs.len() - 1 ==> inferred(#[trigger] exprs[i], a@[i]))
+    && (match expected { Some(t) => checked_as(exprs[exprs.len() - 1], t, a@[a@.len() - 1]), None => inferred(exprs[exprs.len() - 1], a@[a@.len() - 1]) })
+}
+pub open spec fn block_ok(exprs: Seq<ExprId>, r: Expr, expected: Option<Ty>) -> bool { if exprs.len() == 0 { unit_value(r) } else { block_rule_ok(exprs, r, expected) } }
